@@ -1160,6 +1160,53 @@ pub fn c07(out: &mut Out, thorough: bool) {
     }
     out.notes.insert("crowded".into(), format!("{acc_crowded} descriptions with more than 16 men on a side accepted and exercised"));
     out.notes.insert("accepted-from-text".into(), format!("{acc_mut} mutated descriptions and {acc_rand} random placements accepted and exercised"));
+    // masking and iterating moves in any order — also in the middle of a promotion group, where the length
+    // bookkeeping is at its most delicate; only "no panic" is asked here (what the calls return is C10's business)
+    {
+        let mut pool: Vec<Board> = ps.iter().map(|t| t.board).filter(|b| b.legals().any(|m| m.piece.is_some())).take(if thorough { 4000 } else { 300 }).collect();
+        pool.extend(ps.iter().map(|t| t.board).take(if thorough { 2000 } else { 200 }));
+        for b in pool {
+            let p = pos64(&view(&b));
+            let legal: Vec<ChessMove> = b.legals().collect();
+            for _ in 0..(if thorough { 8 } else { 4 }) {
+                let len = 2 + rng.below(14) as usize;
+                let mut ops: Vec<String> = Vec::new();
+                for _ in 0..len {
+                    let k = rng.below(100);
+                    ops.push(if k < 40 {
+                        "n".into()
+                    } else if k < 55 {
+                        "l".into()
+                    } else if k < 60 {
+                        "e".into()
+                    } else if k < 65 {
+                        "h".into()
+                    } else if k < 80 {
+                        let m = match rng.below(5) { 0 => 0u64, 1 => u64::MAX, 2 => 1u64 << rng.below(64), 3 => rng.next() & rng.next(), _ => rng.next() };
+                        format!("m{m:x}")
+                    } else if k < 90 {
+                        let m = match rng.below(3) { 0 => 1u64 << rng.below(64), 1 => rng.next() & rng.next(), _ => 0xff000000000000ffu64 };
+                        format!("r{m:x}")
+                    } else {
+                        let m = if !legal.is_empty() { *rng.pick(&legal) } else { ChessMove { source: Pos::from_u8(0).unwrap(), dest: Pos::from_u8(1).unwrap(), piece: None } };
+                        format!("x{}", mv_str(m))
+                    });
+                }
+                out.case("iterator-ops-no-panic", true, format!("expect no-trap #mgiter {p} {}", ops.join(" ")), || {
+                    let _ = iter_trace(&b, None, &ops);
+                    "no-trap".into()
+                });
+            }
+            // the checked operations on moves that are not moves of the position: refused, never a panic
+            for &m in legal.iter().take(6) {
+                let alt = ChessMove { piece: if m.piece.is_some() { None } else { Some(*rng.pick(&[chess_bitboard::PromotionPiece::Queen, chess_bitboard::PromotionPiece::Knight])) }, ..m };
+                out.case("checked-move-near-miss", true, format!("pos move {p} {}", mv_str(alt)), || match b.move_new(alt) {
+                    Some(nb) => format!("ok {}", pos64(&view(&nb))),
+                    None => "refused".into(),
+                });
+            }
+        }
+    }
     // walking the opening book (whole book, the empty book, every node's children read to the end)
     crate::tables::c17(out, thorough);
     out.exhaustive = false;
